@@ -609,13 +609,13 @@ def pktRun : Nat → Kind → Bytes → Res PktOut
       let l := r.layer
       let d := l.payload
       if d.length = 0 then pure ⟨[.lay l], [.add], false, r.trunc⟩
-      else match l.next with
-        | .payload => pure ⟨[.lay l, .payload d], [.add, .add, .setApplication], false, r.trunc⟩
-        | t => match t.kind? with
-          | none => pure ⟨[.lay l, .other t], [.add], false, r.trunc⟩
-          | some k2 => do
-            let rest ← pktRun fuel k2 d
-            pure ⟨.lay l :: rest.layers, .add :: rest.acts, rest.err, r.trunc || rest.trunc⟩
+      else if l.next = .payload then
+        pure ⟨[.lay l, .payload d], [.add, .add, .setApplication], false, r.trunc⟩
+      else match l.next.kind? with
+        | none => pure ⟨[.lay l, .other l.next], [.add], false, r.trunc⟩
+        | some k2 => do
+          let rest ← pktRun fuel k2 d
+          pure ⟨.lay l :: rest.layers, .add :: rest.acts, rest.err, r.trunc || rest.trunc⟩
 
 /-- The case's eight reusable layer objects (what a DecodingLayerParser is built over). -/
 structure Objs where
@@ -664,10 +664,9 @@ def dlpRun : Nat → Kind → Objs → Bytes → List PLayer → Bool → Res Dl
       let acc' := acc ++ [.lay l]
       let d := l.payload
       if d.length = 0 then pure ⟨o', acc', .ok, tr'⟩
-      else match l.next with
-        | .payload => pure ⟨o', acc' ++ [.payload d], .ok, tr'⟩
-        | t => match t.kind? with
-          | none => pure ⟨o', acc', .unsupported, tr'⟩
-          | some k2 => dlpRun fuel k2 o' d acc' tr'
+      else if l.next = .payload then pure ⟨o', acc' ++ [.payload d], .ok, tr'⟩
+      else match l.next.kind? with
+        | none => pure ⟨o', acc', .unsupported, tr'⟩
+        | some k2 => dlpRun fuel k2 o' d acc' tr'
 
 end Gp.Icmp
